@@ -85,9 +85,13 @@ func (p *Path) binop(i *ssa.BinOp, quiet bool) Val {
 	switch i.Op {
 	case token.EQL, token.NEQ:
 		eq := fmt.Sprintf("(= %s %s)", x.T, y.T)
-		if xs == "Iface" {
-			// comparing with a nil interface constant
-			eq = fmt.Sprintf("(= %s %s)", x.T, y.T)
+		if xs == "Slice" {
+			// slices compare only against nil: the data pointer decides
+			other := x
+			if c, ok := i.X.(*ssa.Const); ok && c.IsNil() {
+				other = y
+			}
+			eq = fmt.Sprintf("(= (sl.arr %s) nil)", other.T)
 		}
 		if i.Op == token.NEQ {
 			eq = "(not " + eq + ")"
